@@ -15,7 +15,7 @@ ALPHA = ["a", "A", "b", "\n", "."]
 NEEDLE_ALPHA = ["a", "A", "b", "\n", ".", "*", "\\"]
 # cased non-ASCII letters with irregular folding (must stay inside gen/gen_t_c16.py's alphabet)
 FOLD_ALPHA = list("aAkKsSiI") + list("éÉßẞſKıİσςΣµμ") + [".", "\\"]
-QUERIES = [(d, icp, c) for d in (0, 1) for icp in (0, 1) for c in (0, 1, 2, 3)]
+QUERIES = [(d, icp, c) for d in (0, 1) for icp in (0, 1) for c in (-1, 0, 1, 2, 3)]
 
 KEYNAMES = {1: "C-r", 2: "C-s", 3: "char", 4: "Enter", 5: "C-g", 6: "Backspace", 7: "Escape",
             8: "n", 9: "N", 10: "/", 11: "?", 12: "Up", 13: "Down"}
@@ -236,8 +236,6 @@ def oracle_buffer(case, raw):
     for (d, icp, c) in QUERIES:
         r = raw[(d, icp, c)]
         tag = {"dir": d, "icp": icp, "count": c}
-        if c <= 0:
-            continue
         if isinstance(r, str):
             return ("_search raised (%s) for count %d" % (r, c), dict(tag, family="raise"))
         if len(needle) > 0 and c == 1:
@@ -245,10 +243,12 @@ def oracle_buffer(case, raw):
             if bad:
                 return (bad[0], dict(tag, family=bad[1]))
         # count = k  ==  k successive single searches
+        # (a count below 1 is no search at all: the empty chain finds nothing)
         chain = raw[("chain", d, icp)]
-        want = None if (len(chain) < c or chain[c - 1] is None) else chain[c - 1]
+        want = None if (c < 1 or len(chain) < c or chain[c - 1] is None) else chain[c - 1]
         if r != want:
-            return ("count=%d search differs from %d successive single searches (%r vs %r)" % (c, c, r, want),
+            return (("count=%d search differs from %d successive single searches (%r vs %r)" % (c, c, r, want)) if c >= 1 else
+                    ("count=%d (below 1) must not search, found %r" % (c, r)),
                     dict(tag, family="count"))
         # the three public entry points around _search
         a = raw.get(("apply", d, icp, c))
@@ -411,7 +411,7 @@ def enabled(vi, searching, k):
     return c in (1, 2, 3, 6, 10, 11)
 
 
-def impl_session_case(sess, case):
+def impl_session_case(sess, case, patience=5):
     """-> (canonical list per key, trace for the oracle)"""
     from prompt_toolkit.application.current import set_app
     _, mode, wl_s, wi, cur, ic, keys = case
@@ -425,7 +425,7 @@ def impl_session_case(sess, case):
                 out.append(-2)
                 break
             try:
-                with_watchdog(lambda: sess.press(k), 5)
+                with_watchdog(lambda: sess.press(k), patience)
                 obs = sess.observe()
             except Hang:
                 out.append(-98)
@@ -764,6 +764,14 @@ async def run_sessions(chk, cases, results, traces):
             if key not in sessions:
                 sessions[key] = Sess(c[1], c[5])
             out, trace = impl_session_case(sessions[key], c)
+            if any(isinstance(o, int) and o == -98 for o in out):
+                # the 5 s wall-clock watchdog fired: on a loaded machine that can be a
+                # descheduled process, so the case is re-run once on a fresh session
+                # with a long watchdog; only a repeated hang is reported
+                sessions.pop(key).close()
+                sessions[key] = Sess(c[1], c[5])
+                chk.note("watchdog fired on a session case; re-run with a 60 s watchdog")
+                out, trace = impl_session_case(sessions[key], c, patience=60)
             results.append(out)
             traces.append(trace)
             if any(isinstance(o, int) and o in (-3, -98) for o in out):
@@ -814,6 +822,11 @@ def main(tier):
         if kind == 1:
             try:
                 out, raw = with_watchdog(lambda: impl_buffer_case(c), 10)
+            except Hang:
+                try:        # loaded machine? once more, with patience
+                    out, raw = with_watchdog(lambda: impl_buffer_case(c), 120)
+                except Exception as e:  # noqa
+                    out, raw = ["raise", type(e).__name__], None
             except Exception as e:  # noqa
                 out, raw = ["raise", type(e).__name__], None
             impl_results.append(out)
@@ -845,6 +858,12 @@ def main(tier):
     sres, straces = [], []
     base = len(cases)
     scases = corpus_sessions + scases
+    # the results gathered so far are millions of small lists: keep the cyclic
+    # collector from walking them (a full collection took > 5 s in thorough and
+    # tripped the per-key watchdog)
+    import gc
+    gc.collect()
+    gc.freeze()
     asyncio.run(run_sessions(chk, scases, sres, straces))
     for j, (c, out, trace) in enumerate(zip(scases, sres, straces)):
         i = base + j
@@ -882,7 +901,7 @@ def main(tier):
     chk.coverage["rule"] = (
         "three kinds of cases, each run on the real objects and on the Coq model (extracted + vm_compute sample): "
         "(1) a Buffer with given working lines/index/cursor and a needle: _search, apply_search, get_search_position for both "
-        "directions x include_current_position x counts 0..3, and document_for_search for both directions (16 queries + 2 per case); "
+        "directions x include_current_position x counts -1..3, and document_for_search for both directions (20 queries + 2 per case); "
         "(2) Document.find / find_backwards incl. count; (3) key sequences (C-r C-s typing Enter C-g Backspace Escape Up Down, "
         "Vi / ? n N with counts) fed to the KeyProcessor of a real PromptSession, state and displayed document observed after every key. "
         "Non-trivial = some search moved the position. Exhaustive strata are sampled in quick and complete in thorough "
